@@ -79,7 +79,9 @@ func Walk(ctx context.Context, fileSystem fs.FS, prefix, delimiter, marker strin
 		if path == "." {
 			return nil
 		}
-		if contains(d.Name(), skipdirs) {
+		// only the gateway's own directories at the top of the bucket are
+		// skipped, not user keys that happen to have the same name
+		if d.IsDir() && contains(path, skipdirs) {
 			return fs.SkipDir
 		}
 
@@ -340,7 +342,9 @@ func WalkVersions(ctx context.Context, fileSystem fs.FS, prefix, delimiter, keyM
 		if path == "." {
 			return nil
 		}
-		if contains(d.Name(), skipdirs) {
+		// only the gateway's own directories at the top of the bucket are
+		// skipped, not user keys that happen to have the same name
+		if d.IsDir() && contains(path, skipdirs) {
 			return fs.SkipDir
 		}
 
